@@ -549,6 +549,20 @@ func NeutralEdits() []EditPair {
 	}
 	txt := []string{"first text", "second text"}
 	{
+		// a path item whose vendor extension changes while it also gains / loses a method
+		a, b := mk(func(d J, v int) {
+			at(d, "paths", "/a")["x-path"] = A{[]string{"p", "q"}[v]}
+			at(d, "paths", "/a", "get")["x-op"] = []string{"o1", "o2"}[v]
+			if v == 1 {
+				at(d, "paths", "/a")["put"] = J{"operationId": "putA", "x-op": "new", "responses": J{"200": J{"description": "ok"}}}
+				at(d, "paths", "/a")["delete"] = J{"operationId": "delA", "responses": J{"204": J{"description": "gone"}}}
+			} else {
+				at(d, "paths", "/a")["post"] = J{"operationId": "postA", "x-op": "old", "responses": J{"201": J{"description": "made"}}}
+			}
+		})
+		add("path and operation extensions changed while methods come and go", a, b)
+	}
+	{
 		// two differences with the same code and text whose locations are prefix-related
 		a, b := mk(func(d J, v int) {
 			at(d, "paths", "/a", "get")["description"] = txt[v]
